@@ -891,6 +891,8 @@ def iter_next(it, itv):
                     return x
                 if v.how == 'map':
                     return Some(it.call_callable(v.f, [x.fields[0]]))
+                if v.how == 'deref':
+                    return Some(clone_val(it, deref(it, x.fields[0])))
                 if v.how == 'filter_map':
                     r = it.call_callable(v.f, [x.fields[0]])
                     if r.variant == 'Some':
@@ -906,6 +908,8 @@ def iter_next(it, itv):
                 v.pos += 1
                 return Some(r)
             return NONE()
+        if v.kind == 'ByteIter':
+            return _byteiter_next(it, v)
         if v.kind == 'VecIntoIter':
             if v.pos < len(v.vec.items):
                 x = v.vec.items[v.pos]
@@ -1864,3 +1868,573 @@ def _(it, a, info):
             return buf_from_exprs(items, 'Vec')
         return VecObj(items)
     raise Unsupported('box_assume_init_into_vec_unsafe on %r' % (arr,))
+
+
+# ------------------------------------------------------------------------------ wider std surface (idioms a refactor may use)
+
+def default_for(info, it=None):
+    t = (info.get('text') or '')
+    m = re.search(r'Option::<(.*?)>::unwrap_or_default|Result::<(.*?),', t)
+    ty = (m.group(1) or m.group(2)) if m else ''
+    ty = ty.strip()
+    if ty in INT_WIDTH:
+        return bv(0, INT_WIDTH[ty])
+    if ty == 'bool':
+        return z3.BoolVal(False)
+    if ty.startswith('&str') or ty == '&str' or ty.startswith("&'"):
+        return whole(Buf.from_bytes(b''), True)
+    if ty.startswith('String'):
+        return Buf.from_bytes(b'', 'String')
+    if ty.startswith('Vec<u8>'):
+        return Buf.from_bytes(b'', 'Vec')
+    if ty.startswith('Vec'):
+        return VecObj()
+    raise Unsupported('Default for ' + ty)
+
+
+@model('Option::unwrap_or_default', 'Result::unwrap_or_default')
+def _(it, a, info):
+    v = a[0]
+    if v.variant in ('Some', 'Ok'):
+        return v.fields[0]
+    return default_for(info, it)
+
+
+@model('Option::map_or_else')
+def _(it, a, info):
+    if a[0].variant == 'Some':
+        return it.call_callable(a[2], [a[0].fields[0]])
+    return it.call_callable(a[1], [])
+
+
+@model('Option::is_some_and', 'Result::is_ok_and')
+def _(it, a, info):
+    if a[0].variant in ('Some', 'Ok'):
+        return it.call_callable(a[1], [a[0].fields[0]])
+    return z3.BoolVal(False)
+
+
+@model('Option::is_none_or')
+def _(it, a, info):
+    if a[0].variant == 'Some':
+        return it.call_callable(a[1], [a[0].fields[0]])
+    return z3.BoolVal(True)
+
+
+@model('Option::cloned', 'Option::copied')
+def _(it, a, info):
+    if a[0].variant == 'Some':
+        return Some(clone_val(it, deref(it, a[0].fields[0])))
+    return NONE()
+
+
+@model('Option::replace', 'Option::insert')
+def _(it, a, info):
+    r = a[0]
+    old = deref(it, r)
+    it.write(r.root, r.path, Some(a[1]))
+    if info['method'] == 'replace':
+        return old
+    return Ref(r.root, r.path + (('d', 'Some'), ('f', 0)), True)
+
+
+@model('Option::xor')
+def _(it, a, info):
+    x, y = a[0], a[1]
+    if x.variant == 'Some' and y.variant == 'None':
+        return x
+    if x.variant == 'None' and y.variant == 'Some':
+        return y
+    return NONE()
+
+
+@model('Option::or_else')
+def _(it, a, info):
+    return a[0] if a[0].variant == 'Some' else it.call_callable(a[1], [])
+
+
+@model('Option::and')
+def _(it, a, info):
+    return a[1] if a[0].variant == 'Some' else NONE()
+
+
+@model('Option::zip')
+def _(it, a, info):
+    if a[0].variant == 'Some' and a[1].variant == 'Some':
+        return Some(Struct('(tuple)', [a[0].fields[0], a[1].fields[0]]))
+    return NONE()
+
+
+@model('Option::flatten')
+def _(it, a, info):
+    return a[0].fields[0] if a[0].variant == 'Some' else NONE()
+
+
+@model('Result::unwrap_or_else')
+def _(it, a, info):
+    return a[0].fields[0] if a[0].variant == 'Ok' else it.call_callable(a[1], [a[0].fields[0]])
+
+
+@model('Result::map_or')
+def _(it, a, info):
+    return it.call_callable(a[2], [a[0].fields[0]]) if a[0].variant == 'Ok' else a[1]
+
+
+@model('Result::and')
+def _(it, a, info):
+    return a[1] if a[0].variant == 'Ok' else a[0]
+
+
+@model('Result::unwrap_err', 'Result::expect_err')
+def _(it, a, info):
+    if a[0].variant == 'Err':
+        return a[0].fields[0]
+    raise RustPanic('called `Result::unwrap_err()` on an `Ok` value', tuple(it.callstack))
+
+
+@model('Result::as_mut')
+def _(it, a, info):
+    r = a[0]
+    v = deref(it, r)
+    return Enum('Result', v.variant, v.idx, [Ref(r.root, r.path + (('d', v.variant), ('f', 0)), True)])
+
+
+def _scalar_pair(a):
+    x, y = a[0], a[1]
+    return x, y
+
+
+@model('cmp::min', 'cmp::max', 'Ord::min', 'Ord::max')
+def _(it, a, info):
+    x, y = deref(it, a[0]) if isinstance(a[0], Ref) else a[0], deref(it, a[1]) if isinstance(a[1], Ref) else a[1]
+    if not (z3.is_bv(x) and z3.is_bv(y)):
+        raise Unsupported('min/max on non-integers')
+    lt = z3.ULT(x, y)
+    if info['method'] == 'min':
+        return z3.simplify(z3.If(lt, x, y))
+    return z3.simplify(z3.If(lt, y, x))
+
+
+def _int_method(name):
+    return ['usize::' + name, 'u64::' + name, 'u32::' + name, 'u16::' + name, 'u8::' + name]
+
+
+@model(*(_int_method('saturating_sub') + _int_method('saturating_add') + _int_method('wrapping_add') + _int_method('wrapping_sub') +
+         _int_method('checked_add') + _int_method('checked_sub') + _int_method('checked_mul') + _int_method('min') + _int_method('max') +
+         _int_method('overflowing_sub') + _int_method('overflowing_add') + _int_method('abs_diff')))
+def _(it, a, info):
+    x, y = a[0], a[1]
+    m = info['method']
+    w = x.size()
+    S = z3.simplify
+    if m == 'saturating_sub':
+        return S(z3.If(z3.ULT(x, y), z3.BitVecVal(0, w), x - y))
+    if m == 'saturating_add':
+        r = x + y
+        return S(z3.If(z3.ULT(r, x), z3.BitVecVal((1 << w) - 1, w), r))
+    if m == 'wrapping_add':
+        return S(x + y)
+    if m == 'wrapping_sub':
+        return S(x - y)
+    if m == 'abs_diff':
+        return S(z3.If(z3.ULT(x, y), y - x, x - y))
+    if m == 'min':
+        return S(z3.If(z3.ULT(x, y), x, y))
+    if m == 'max':
+        return S(z3.If(z3.ULT(x, y), y, x))
+    if m == 'checked_add':
+        r = S(x + y)
+        return NONE() if it.ctx.branch(z3.ULT(r, x)) else Some(r)
+    if m == 'checked_sub':
+        return NONE() if it.ctx.branch(z3.ULT(x, y)) else Some(S(x - y))
+    if m == 'checked_mul':
+        wide = z3.ZeroExt(w, x) * z3.ZeroExt(w, y)
+        if it.ctx.branch(z3.Extract(2 * w - 1, w, wide) != 0):
+            return NONE()
+        return Some(S(z3.Extract(w - 1, 0, wide)))
+    if m == 'overflowing_sub':
+        return Struct('(tuple)', [S(x - y), S(z3.ULT(x, y))])
+    if m == 'overflowing_add':
+        r = S(x + y)
+        return Struct('(tuple)', [r, S(z3.ULT(r, x))])
+    raise Unsupported(m)
+
+
+def _ascii_pred(name):
+    def digit(c):
+        return z3.And(z3.UGE(c, 0x30), z3.ULE(c, 0x39))
+
+    def alpha(c):
+        return z3.Or(z3.And(z3.UGE(c, 0x41), z3.ULE(c, 0x5a)), z3.And(z3.UGE(c, 0x61), z3.ULE(c, 0x7a)))
+    table = {
+        'is_ascii_digit': digit,
+        'is_ascii_alphabetic': alpha,
+        'is_ascii_alphanumeric': lambda c: z3.Or(digit(c), alpha(c)),
+        'is_ascii_whitespace': lambda c: z3.Or(c == 0x20, c == 0x09, c == 0x0a, c == 0x0c, c == 0x0d),
+        'is_ascii_hexdigit': lambda c: z3.Or(digit(c), z3.And(z3.UGE(c, 0x41), z3.ULE(c, 0x46)), z3.And(z3.UGE(c, 0x61), z3.ULE(c, 0x66))),
+        'is_ascii_uppercase': lambda c: z3.And(z3.UGE(c, 0x41), z3.ULE(c, 0x5a)),
+        'is_ascii_lowercase': lambda c: z3.And(z3.UGE(c, 0x61), z3.ULE(c, 0x7a)),
+        'is_ascii_control': lambda c: z3.Or(z3.ULT(c, 0x20), c == 0x7f),
+        'is_ascii_graphic': lambda c: z3.And(z3.UGE(c, 0x21), z3.ULE(c, 0x7e)),
+        'is_ascii_punctuation': lambda c: z3.And(z3.UGE(c, 0x21), z3.ULE(c, 0x7e), z3.Not(z3.Or(digit(c), alpha(c)))),
+        'is_ascii': lambda c: z3.ULT(c, 0x80),
+        'is_whitespace': lambda c: z3.Or(c == 0x20, z3.And(z3.UGE(c, 9), z3.ULE(c, 13)), c == 0x85, c == 0xa0),
+        'is_numeric': digit,
+        'is_alphabetic': alpha,
+        'is_alphanumeric': lambda c: z3.Or(digit(c), alpha(c)),
+        'is_control': lambda c: z3.Or(z3.ULT(c, 0x20), z3.And(z3.UGE(c, 0x7f), z3.ULE(c, 0x9f))),
+    }
+    return table.get(name)
+
+
+def char_pred_from(it, p):
+    """pattern value -> predicate over a byte expression (ASCII strings): char, fn item, closure, &[char]"""
+    p = deref(it, p)
+    if z3.is_bv(p):
+        c = conc(p)
+        if c is None or c > 127:
+            raise Unsupported('symbolic / non-ascii char pattern')
+        return lambda ch: ch == c
+    if isinstance(p, FnItem):
+        f = _ascii_pred(strip_generics(p.name).split('::')[-1])
+        if f is None:
+            raise Unsupported('char predicate ' + p.name)
+        return f
+    if isinstance(p, Struct) and p.ty.startswith('{closure@'):
+        def pred(ch):
+            r = it.call_callable(p, [z3.ZeroExt(24, ch)])
+            return r
+        return pred
+    raise Unsupported('pattern %r' % (p,))
+
+
+for _n in ('is_ascii_digit', 'is_ascii_alphabetic', 'is_ascii_alphanumeric', 'is_ascii_whitespace', 'is_ascii_hexdigit',
+           'is_ascii_uppercase', 'is_ascii_lowercase', 'is_ascii_control', 'is_ascii_graphic', 'is_ascii_punctuation', 'is_ascii',
+           'is_numeric', 'is_alphabetic', 'is_alphanumeric', 'is_control'):
+    def _mk(nm):
+        def f(it, a, info):
+            c = deref(it, a[0])
+            if isinstance(c, (Slice, Buf)):
+                s = as_slice(it, c)
+                return z3.simplify(all_in(s, _ascii_pred(nm)))
+            if c.size() == 32:
+                lowb = z3.Extract(7, 0, c)
+                return z3.simplify(z3.And(z3.ULT(c, 256), _ascii_pred(nm)(lowb)))
+            return z3.simplify(_ascii_pred(nm)(c))
+        return f
+    for _pre in ('u8::', 'char::', 'char::methods::', 'str::', 'slice::', 'AsciiChar::'):
+        MODELS.setdefault(_pre + _n, _mk(_n))
+
+
+@model('u8::to_ascii_lowercase', 'char::to_ascii_lowercase', 'u8::to_ascii_uppercase', 'char::to_ascii_uppercase',
+       'char::methods::to_ascii_lowercase', 'char::methods::to_ascii_uppercase')
+def _(it, a, info):
+    c = deref(it, a[0])
+    if info['method'].endswith('lowercase'):
+        return z3.simplify(z3.If(z3.And(z3.UGE(c, 65), z3.ULE(c, 90)), c + 32, c))
+    return z3.simplify(z3.If(z3.And(z3.UGE(c, 97), z3.ULE(c, 122)), c - 32, c))
+
+
+@model('u8::eq_ignore_ascii_case', 'char::eq_ignore_ascii_case')
+def _(it, a, info):
+    x, y = deref(it, a[0]), deref(it, a[1])
+    return z3.simplify(lower(x) == lower(y))
+
+
+@model('str::find', 'str::rfind')
+def _(it, a, info):
+    s = as_slice(it, a[0])
+    p = deref(it, a[1])
+    if isinstance(p, (Slice, Buf)):
+        pc = as_slice(it, p).concrete()
+        if pc is None or len(pc) != 1:
+            if pc is not None and info['method'] == 'find':
+                n = len(pc)
+                cl = conc(s.len)
+                if cl is not None:
+                    for i in range(0, cl - n + 1):
+                        if it.ctx.branch(z3.And(*[s.at(i + j) == pc[j] for j in range(n)])):
+                            return Some(bv(i))
+                    return NONE()
+            raise Unsupported('str::find with a multi-byte / symbolic pattern')
+        pred = lambda ch: ch == pc[0]
+    else:
+        pred = char_pred_from(it, p)
+    if info['method'] == 'rfind':
+        cl = conc(s.len)
+        if cl is None:
+            raise Unsupported('rfind on symbolic-length string')
+        for i in range(cl - 1, -1, -1):
+            if it.ctx.branch(pred(s.at(i))):
+                return Some(bv(i))
+        return NONE()
+    i = find_byte(it, s, pred, None, 'find')
+    return NONE() if i is None else Some(i)
+
+
+@model('str::split_once', 'str::rsplit_once')
+def _(it, a, info):
+    s = as_slice(it, a[0])
+    p = deref(it, a[1])
+    if isinstance(p, (Slice, Buf)):
+        pc = as_slice(it, p).concrete()
+        if pc is None or len(pc) != 1:
+            raise Unsupported('split_once with a multi-byte pattern')
+        pred = lambda ch: ch == pc[0]
+    else:
+        pred = char_pred_from(it, p)
+    if info['method'] == 'rsplit_once':
+        cl = conc(s.len)
+        if cl is None:
+            raise Unsupported('rsplit_once on symbolic-length string')
+        for i in range(cl - 1, -1, -1):
+            if it.ctx.branch(pred(s.at(i))):
+                return Some(Struct('(tuple)', [sub(s, bv(0), bv(i)), sub(s, bv(i + 1), bv(cl - i - 1))]))
+        return NONE()
+    i = find_byte(it, s, pred, None, 'split_once')
+    if i is None:
+        return NONE()
+    return Some(Struct('(tuple)', [sub(s, bv(0), i), sub(s, i + 1, s.len - i - 1)]))
+
+
+@model('str::strip_prefix', 'str::strip_suffix')
+def _(it, a, info):
+    s = as_slice(it, a[0])
+    p = deref(it, a[1])
+    if z3.is_bv(p):
+        pc = bytes([conc(p)])
+    else:
+        pc = as_slice(it, p).concrete()
+    if pc is None:
+        raise Unsupported('strip_prefix symbolic pattern')
+    n = len(pc)
+    if info['method'] == 'strip_prefix':
+        c = z3.And(z3.UGE(s.len, n), *[s.at(i) == ch for i, ch in enumerate(pc)])
+        if it.ctx.branch(c):
+            return Some(sub(s, bv(n), s.len - n))
+        return NONE()
+    c = z3.And(z3.UGE(s.len, n), *[s.at(s.len - n + i) == ch for i, ch in enumerate(pc)])
+    if it.ctx.branch(c):
+        return Some(sub(s, bv(0), s.len - n))
+    return NONE()
+
+
+@model('str::trim_matches', 'str::trim_start_matches', 'str::trim_end_matches')
+def _(it, a, info):
+    s = as_slice(it, a[0])
+    pred = char_pred_from(it, a[1])
+    cl, co = conc(s.len), conc(s.off)
+    if cl is None or co is None:
+        raise Unsupported('trim_matches on symbolic layout')
+    x, y = 0, cl
+    m = info['method']
+    if m != 'trim_end_matches':
+        while x < y and it.ctx.branch(pred(s.at(x))):
+            x += 1
+    if m != 'trim_start_matches':
+        while y > x and it.ctx.branch(pred(s.at(y - 1))):
+            y -= 1
+    return Slice(s.buf, z3.simplify(s.off + x), bv(y - x), s.is_str)
+
+
+@model('str::bytes', 'str::chars', 'slice::iter_bytes', 'str::char_indices')
+def _(it, a, info):
+    s = as_slice(it, a[0])
+    return Opaque('ByteIter', s=s, pos=0, chars=(info['method'] != 'bytes'), idx=(info['method'] == 'char_indices'))
+
+
+def _byteiter_next(it, v):
+    cl = conc(v.s.len)
+    if cl is None:
+        raise Unsupported('byte iteration over a symbolic-length string')
+    if v.pos >= cl:
+        return NONE()
+    b = z3.simplify(v.s.at(v.pos))
+    i = v.pos
+    v.pos += 1
+    x = z3.simplify(z3.ZeroExt(24, b)) if v.chars else b
+    return Some(Struct('(tuple)', [bv(i), x]) if v.idx else x)
+
+
+@model('str::get', 'slice::get')
+def _(it, a, info):
+    v = deref(it, a[0])
+    r = a[1]
+    if isinstance(v, (VecObj, ListSlice)):
+        ls = v if isinstance(v, ListSlice) else ListSlice(v)
+        k = conc(r) if z3.is_bv(r) else None
+        if k is None:
+            raise Unsupported('slice::get with symbolic index')
+        if k < ls.end - ls.start:
+            return Some(Ref(ls.vec, (('i', ls.start + k),)))
+        return NONE()
+    s = as_slice(it, v)
+    ctx = it.ctx
+    if isinstance(r, Struct) and r.ty == 'RangeFrom':
+        x = r.fields[0]
+        return Some(sub(s, x, s.len - x)) if ctx.branch(z3.ULE(x, s.len)) else NONE()
+    if isinstance(r, Struct) and r.ty == 'RangeTo':
+        y = r.fields[0]
+        return Some(sub(s, bv(0), y)) if ctx.branch(z3.ULE(y, s.len)) else NONE()
+    if isinstance(r, Struct) and r.ty == 'Range':
+        x, y = r.fields
+        return Some(sub(s, x, y - x)) if ctx.branch(z3.And(z3.ULE(x, y), z3.ULE(y, s.len))) else NONE()
+    if z3.is_bv(r):
+        return Some(Ref(Cell(s), (('si', r),))) if ctx.branch(z3.ULT(r, s.len)) else NONE()
+    raise Unsupported('get by %r' % (r,))
+
+
+@model('slice::first', 'slice::last', 'Vec::first', 'Vec::last', 'slice::first_mut', 'slice::last_mut')
+def _(it, a, info):
+    v = deref(it, a[0])
+    first = info['method'].startswith('first')
+    if isinstance(v, (VecObj, ListSlice)):
+        ls = v if isinstance(v, ListSlice) else ListSlice(v)
+        if ls.end == ls.start:
+            return NONE()
+        return Some(Ref(ls.vec, (('i', ls.start if first else ls.end - 1),), True))
+    s = as_slice(it, v)
+    if it.ctx.branch(s.len == 0):
+        return NONE()
+    return Some(Ref(Cell(s), (('si', bv(0) if first else z3.simplify(s.len - 1)),), True))
+
+
+@model('slice::contains', 'Vec::contains')
+def _(it, a, info):
+    v = deref(it, a[0])
+    x = deref(it, a[1])
+    if isinstance(v, (Slice, Buf)):
+        s = as_slice(it, v)
+        return z3.simplify(exists_in(s, lambda c: c == x))
+    raise Unsupported('contains on list')
+
+
+@model('Vec::remove', 'Vec::swap_remove')
+def _(it, a, info):
+    v = deref(it, a[0])
+    k = conc(a[1])
+    if isinstance(v, VecObj) and k is not None:
+        if k >= len(v.items):
+            raise RustPanic('removal index out of bounds', tuple(it.callstack))
+        if info['method'] == 'remove':
+            return v.items.pop(k)
+        x = v.items[k]
+        v.items[k] = v.items[-1]
+        v.items.pop()
+        return x
+    raise Unsupported('Vec::remove')
+
+
+@model('Vec::retain')
+def _(it, a, info):
+    v = deref(it, a[0])
+    if not isinstance(v, VecObj):
+        raise Unsupported('retain on bytes')
+    keep = []
+    for x in v.items:
+        c = Cell(x)
+        if it.ctx.branch(it.call_callable(a[1], [Ref(c)])):
+            keep.append(x)
+        else:
+            it.drop_value(x)
+    v.items[:] = keep
+    return unit()
+
+
+@model('Vec::extend', 'Extend::extend')
+def _(it, a, info):
+    v = deref(it, a[0])
+    src = a[1]
+    if isinstance(v, Buf):
+        buf_append(it, v, as_slice(it, src))
+        return unit()
+    cell = Cell(src)
+    while True:
+        x = iter_next(it, Ref(cell))
+        if x.variant == 'None':
+            return unit()
+        v.items.append(x.fields[0])
+
+
+@model('Vec::append')
+def _(it, a, info):
+    v = deref(it, a[0])
+    o = deref(it, a[1])
+    if isinstance(v, Buf):
+        buf_append(it, v, whole(o))
+        o.len = bv(0)
+    else:
+        v.items += o.items
+        o.items = []
+    return unit()
+
+
+@model('Vec::into_boxed_slice', 'Vec::shrink_to_fit', 'Vec::reserve', 'String::reserve', 'Vec::reserve_exact')
+def _(it, a, info):
+    if info['method'] in ('reserve', 'reserve_exact'):
+        hook = it.ctx.data.get('alloc_hook')
+        if hook:
+            hook(it, a[1], 'reserve')
+        it.ctx.event('alloc', info['method'], a[1], tuple(it.callstack))
+        return unit()
+    if info['method'] == 'shrink_to_fit':
+        return unit()
+    return a[0]
+
+
+@model('Iterator::count')
+def _(it, a, info):
+    n = 0
+    cell = Cell(a[0])
+    while True:
+        x = iter_next(it, Ref(cell))
+        if x.variant == 'None':
+            return bv(n)
+        n += 1
+
+
+@model('Iterator::rev', 'Iterator::enumerate', 'Iterator::skip', 'Iterator::take', 'Iterator::peekable', 'Iterator::by_ref',
+       'Iterator::cloned', 'Iterator::copied', 'Iterator::take_while', 'Iterator::skip_while', 'Iterator::chain', 'Iterator::zip')
+def _(it, a, info):
+    m = info['method']
+    if m == 'by_ref':
+        return a[0]
+    if m in ('cloned', 'copied'):
+        return Opaque('Adapter', inner=a[0], f=None, how='deref')
+    raise Unsupported('iterator adapter ' + m)
+
+
+@model('Iterator::last', 'Iterator::nth', 'Iterator::fold', 'Iterator::for_each', 'Iterator::max', 'Iterator::min', 'Iterator::sum')
+def _(it, a, info):
+    m = info['method']
+    cell = Cell(a[0])
+    if m == 'last':
+        last = NONE()
+        while True:
+            x = iter_next(it, Ref(cell))
+            if x.variant == 'None':
+                return last
+            last = x
+    if m == 'nth':
+        k = conc(a[1])
+        if k is None:
+            raise Unsupported('nth symbolic')
+        for _ in range(k):
+            x = iter_next(it, Ref(cell))
+            if x.variant == 'None':
+                return x
+        return iter_next(it, Ref(cell))
+    if m == 'for_each':
+        while True:
+            x = iter_next(it, Ref(cell))
+            if x.variant == 'None':
+                return unit()
+            it.call_callable(a[1], [x.fields[0]])
+    if m == 'fold':
+        acc = a[1]
+        while True:
+            x = iter_next(it, Ref(cell))
+            if x.variant == 'None':
+                return acc
+            acc = it.call_callable(a[2], [acc, x.fields[0]])
+    raise Unsupported('Iterator::' + m)
